@@ -145,6 +145,8 @@ def unbox(spec: Spec, t, st: State, facts: bool = True) -> Sym:
     if k == "dict":
         keys = uf("dictkeys", V, SeqV)(t)
         vals = uf("dictvals", V, z3.ArraySort(V, V))(t)
+        if facts:
+            st.assume(Q.Distinct(keys))
         return Sym("dict", None, spec, DictPayload(keys, vals, spec.arg[0], spec.arg[1]))
     if k == "set":
         return Sym("set", uf("setelems", V, SeqV)(t), spec)
